@@ -178,3 +178,79 @@ func instrValue(in ssa.Instruction) ssa.Value {
 	v, _ := in.(ssa.Value)
 	return v
 }
+
+// bufferNotShrunkAcrossIterations (rule read-buffer-full-size-per-request): a read buffer that lives across the
+// iterations of a request loop and is re-sliced inside it (`body = body[:n]`) enters the next iteration with the length
+// of the previous request's data: every later request is read – and reported – only up to the shortest earlier one.
+// The loop-carried value (a φ at the loop header) must not be a sub-slice of itself with a run-time bound.
+func bufferNotShrunkAcrossIterations(c *Ctx, rule, consequence string, rels ...string) {
+	p := c.P
+	n := 0
+	for _, fn := range p.FuncsIn(rels...) {
+		for _, l := range Loops(fn) {
+			for _, in := range l.Header.Instrs {
+				ph, ok := in.(*ssa.Phi)
+				if !ok {
+					break
+				}
+				sl, isSl := ph.Type().Underlying().(*types.Slice)
+				if !isSl {
+					continue
+				}
+				if bt, ok := sl.Elem().Underlying().(*types.Basic); !ok || bt.Kind() != types.Byte {
+					continue
+				}
+				// is it a read target in the loop?
+				target := false
+				if ph.Referrers() != nil {
+					for _, r := range *ph.Referrers() {
+						if call, ok := r.(ssa.CallInstruction); ok && l.Blocks[call.Block()] {
+							cc := call.Common()
+							name := ""
+							if cc.IsInvoke() {
+								name = cc.Method.Name()
+							} else if f := cc.StaticCallee(); f != nil {
+								name = f.Name()
+							}
+							if name == "Read" || name == "ReadFull" || name == "ReadAtLeast" {
+								target = true
+							}
+						}
+					}
+				}
+				if !target {
+					continue
+				}
+				n++
+				bad := ""
+				for i, e := range ph.Edges {
+					if !l.Blocks[l.Header.Preds[i]] {
+						continue
+					}
+					for _, lf := range leaves(e) {
+						s2, ok := lf.(*ssa.Slice)
+						if !ok || s2.High == nil {
+							continue
+						}
+						if _, isC := s2.High.(*ssa.Const); isC {
+							continue
+						}
+						for x, k := s2.X, 0; x != nil && k < 6; k++ {
+							if x == ssa.Value(ph) {
+								bad = p.InstrPos(s2)
+								break
+							}
+							inner, ok := x.(*ssa.Slice)
+							if !ok {
+								break
+							}
+							x = inner.X
+						}
+					}
+				}
+				c.Check(bad == "", rule, fmt.Sprintf("%s: read buffer %s carried across iterations", shortFn(fn), ph.Comment), p.Pos(ph.Pos()), "enters every iteration at full size", "the buffer requests are read into is created once, outside the request loop, and cut to the length of what was read inside it ("+bad+"): the next request is read into the shortened buffer – "+consequence)
+			}
+		}
+	}
+	c.Ok(rule, "loop-carried read buffers", "-", fmt.Sprintf("%d examined in %v", n, rels))
+}
